@@ -1,9 +1,10 @@
 Require Import ExtrOcamlBasic.
-From Eupsv Require Import Base.Base Model.Resolve Model.ResolveSpec Generated.Config Model.ResolveReal Model.ResolveExt.
+From Eupsv Require Import Base.Base Model.Resolve Model.ResolveSpec Generated.Config Model.ResolveReal Model.ResolveExt Model.ResolveSeq.
 Extraction "model.ml" keep_types parse_entry entry_str select_vro initial_preferred find_from_vro
   resolve_request classify designates_in designates wf_db vcmp_simple vmatch_simple
   site_config default_config pinned_path_quirk
   vcmp_real vmatch_real resolve_real walk_real real_domain real_names_ok conv_names names_of
   latest_tie expr_tie find_latest select_latest find_by_expr is_expr
   select_vro_x select_vro_w initial_preferred_x find_from_vro_x resolve_request_x designates_in_x wf_dbx flatten mkWorld
-  tf_lookup find_tagged_x tag_designates_x.
+  tf_lookup find_tagged_x tag_designates_x
+  apply_mut view_after hd_flavor find_tagged find_version.
